@@ -26,6 +26,8 @@ def handleC03 : List String → String
       (match kind with
       | "plain" => (match checkAssign frames "x" false with | .accepted => "accepted" | .mutationWithoutMut => "mutationWithoutMut")
       | "let" | "mut" => (match checkAssign frames "x" true with | .accepted => "accepted" | .mutationWithoutMut => "mutationWithoutMut")
+      | "method" | "field" | "index" =>
+        (match checkMutateThrough frames [] "x" with | .accepted => "accepted" | .mutationWithoutMut => "mutationWithoutMut")
       | _ => compoundVerdict frames "x")
     | _, _ => "bad-op")
   | ["match", variants, isOpt, arms] =>
